@@ -1628,6 +1628,8 @@ class Interp:
             k = self.expr(e.slice, env, mod)
             if isinstance(k, str):
                 return v.cols.get(k, Unk('table has no column %r' % k, e))
+            if isinstance(k, _WhereIdx):
+                k = k.mask              # the rows at the positions where a mask holds: the rows the mask selects
             if isinstance(k, Arr) and k.ndim == 1 and k.dims == (v.label,) and _is_boolean(k.poly):
                 new = v.label + "'"
                 return SymTable({c: Arr((new,) + tuple(a.dims[1:]), alg.mk_fn('compress', L(new), B(v.label, a.poly), B(v.label, k.poly)), unit=a.unit) for c, a in v.cols.items()}, new)
